@@ -892,7 +892,7 @@ theorem rmAnonS_metas (tbl : List TemplateSig) : ∀ (va : Option Expr) (s s' : 
       split at h
       · cases h
       · rename_i b' nd hb
-        have h1 := rmAnonS_metas tbl (some (.var m ("anon_var_" ++ label) .nil)) b b' nd hb
+        have h1 := rmAnonS_metas tbl (some (.var m ("anon_var@" ++ label) .nil)) b b' nd hb
         split at h
         · cases h
           intro x hx
